@@ -292,6 +292,9 @@ def run(check, an: Analysis):
     _kernel.check_kernel_core(check, an)
     from . import _scope as _sc
     _sc.check_until_core(check, an)
+    from . import c01 as _c01
+    _c01._check_schedule_preconditions(check, an)
+    _c01._check_plumbing_sites(check, an)
     check.stats.update(an.stats())
 
 
